@@ -529,10 +529,12 @@ func (c *Conn) closeWithError(err error) {
 
 	c.mu.Lock()
 	if c.closed {
+		c.vConn(vcCloseBegin, nil, verifB2I(err != nil), 0)
 		c.mu.Unlock()
 		return
 	}
 	c.closed = true
+	c.vConn(vcCloseBegin, nil, verifB2I(err != nil), 1)
 
 	var callsToClose map[int]*callReq
 
@@ -550,7 +552,9 @@ func (c *Conn) closeWithError(err error) {
 		// we need to send the error to all waiting queries.
 		select {
 		case req.resp <- callResp{err: err}:
+			c.vConn(vcCloseDelivered, req, 0, 0)
 		case <-req.timeout:
+			c.vConn(vcCloseSawTimeout, req, 0, 0)
 		}
 		if req.streamObserverContext != nil {
 			req.streamObserverEndOnce.Do(func() {
@@ -562,6 +566,7 @@ func (c *Conn) closeWithError(err error) {
 	}
 
 	// if error was nil then unblock the quit channel
+	c.vConn(vcCloseCancel, nil, 0, 0)
 	c.cancel()
 	cerr := c.close()
 
@@ -590,6 +595,7 @@ func (c *Conn) serve(ctx context.Context) {
 		err = c.recv(ctx)
 	}
 
+	c.vConn(vcServeExit, nil, 0, 0)
 	c.closeWithError(err)
 }
 
@@ -719,11 +725,13 @@ func (c *Conn) recv(ctx context.Context) error {
 
 	c.mu.Lock()
 	if c.closed {
+		c.vConn(vcLookup, nil, head.stream, 2)
 		c.mu.Unlock()
 		return ErrConnectionClosed
 	}
 	call, ok := c.calls[head.stream]
 	delete(c.calls, head.stream)
+	c.vConn(vcLookup, call, head.stream, verifB2I(call != nil && ok))
 	c.mu.Unlock()
 	if call == nil || !ok {
 		c.logger.Printf("gocql: received response for stream which has no handler: header=%v\n", head)
@@ -736,6 +744,7 @@ func (c *Conn) recv(ctx context.Context) error {
 
 	err = framer.readFrame(c, &head)
 	if err != nil {
+		c.vConn(vcBody, call, 1+verifB2I(verifIsNetErr(err)), 0)
 		// only net errors should cause the connection to be closed. Though
 		// cassandra returning corrupt frames will be returned here as well.
 		if _, ok := err.(net.Error); ok {
@@ -743,13 +752,19 @@ func (c *Conn) recv(ctx context.Context) error {
 		}
 	}
 
+	if err == nil {
+		c.vConn(vcBody, call, 0, 0)
+	}
 	// we either, return a response to the caller, the caller timedout, or the
 	// connection has closed. Either way we should never block indefinatly here
 	select {
 	case call.resp <- callResp{framer: framer, err: err}:
+		c.vConn(vcDelivered, call, 0, 0)
 	case <-call.timeout:
+		c.vConn(vcSawTimeout, call, 0, 0)
 		c.releaseStream(call)
 	case <-ctx.Done():
+		c.vConn(vcRecvCtxDone, call, 0, 0)
 	}
 
 	return nil
@@ -760,6 +775,7 @@ func (c *Conn) releaseStream(call *callReq) {
 		call.timer.Stop()
 	}
 
+	c.vConn(vcRelease, call, call.streamID, 0)
 	c.streams.Clear(call.streamID)
 
 	if call.streamObserverContext != nil {
@@ -1015,14 +1031,17 @@ func (c *Conn) addCall(call *callReq) error {
 	c.mu.Lock()
 	defer c.mu.Unlock()
 	if c.closed {
+		c.vConn(vcAddCall, call, 1, 0)
 		return ErrConnectionClosed
 	}
 	existingCall := c.calls[call.streamID]
 	if existingCall != nil {
+		c.vConn(vcAddCall, call, 2, 0)
 		return fmt.Errorf("attempting to use stream already in use: %d -> %d", call.streamID,
 			existingCall.streamID)
 	}
 	c.calls[call.streamID] = call
+	c.vConn(vcAddCall, call, 0, 0)
 	return nil
 }
 
@@ -1045,6 +1064,7 @@ func (c *Conn) exec(ctx context.Context, req frameBuilder, tracer Tracer) (*fram
 		streamID: stream,
 		resp:     make(chan callResp),
 	}
+	c.vConn(vcAlloc, call, stream, 0)
 
 	if c.streamObserver != nil {
 		call.streamObserverContext = c.streamObserver.StreamContext(ctx)
@@ -1072,6 +1092,7 @@ func (c *Conn) exec(ctx context.Context, req frameBuilder, tracer Tracer) (*fram
 	if err != nil {
 		// closeWithError will block waiting for this stream to either receive a response
 		// or for us to timeout.
+		c.vConn(vcTmoClose, call, 1, 0)
 		close(call.timeout)
 		// We failed to serialize the frame into a buffer.
 		// This should not affect the connection as we didn't write anything. We just free the current call.
@@ -1079,6 +1100,7 @@ func (c *Conn) exec(ctx context.Context, req frameBuilder, tracer Tracer) (*fram
 		if !c.closed {
 			delete(c.calls, call.streamID)
 		}
+		c.vConn(vcDelCall, call, 0, 0)
 		c.mu.Unlock()
 		// We need to release the stream after we remove the call from c.calls, otherwise the existingCall != nil
 		// check above could fail.
@@ -1086,11 +1108,14 @@ func (c *Conn) exec(ctx context.Context, req frameBuilder, tracer Tracer) (*fram
 		return nil, err
 	}
 
+	c.vConn(vcWriteBegin, call, 0, 0)
 	n, err := c.w.writeContext(ctx, framer.buf)
+	c.vConn(vcWriteEnd, call, verifWriteClass(err, n), n)
 	if err != nil {
 		// closeWithError will block waiting for this stream to either receive a response
 		// or for us to timeout, close the timeout chan here. Im not entirely sure
 		// but we should not get a response after an error on the write side.
+		c.vConn(vcTmoClose, call, 2, 0)
 		close(call.timeout)
 		if (errors.Is(err, context.Canceled) || errors.Is(err, context.DeadlineExceeded)) && n == 0 {
 			// We have not started to write this frame.
@@ -1099,6 +1124,7 @@ func (c *Conn) exec(ctx context.Context, req frameBuilder, tracer Tracer) (*fram
 			if !c.closed {
 				delete(c.calls, call.streamID)
 			}
+			c.vConn(vcDelCall, call, 0, 0)
 			c.mu.Unlock()
 			// We need to release the stream after we remove the call from c.calls, otherwise the existingCall != nil
 			// check above could fail.
@@ -1139,6 +1165,7 @@ func (c *Conn) exec(ctx context.Context, req frameBuilder, tracer Tracer) (*fram
 
 	select {
 	case resp := <-call.resp:
+		c.vConn(vcGotResp, call, verifB2I(resp.err != nil), 0)
 		close(call.timeout)
 		if resp.err != nil {
 			if !c.Closed() {
@@ -1148,6 +1175,7 @@ func (c *Conn) exec(ctx context.Context, req frameBuilder, tracer Tracer) (*fram
 				// connection to close.
 				c.releaseStream(call)
 			}
+			c.vConn(vcFinishErr, call, 0, 0)
 			return nil, resp.err
 		}
 		// dont release the stream if detect a timeout as another request can reuse
@@ -1164,13 +1192,16 @@ func (c *Conn) exec(ctx context.Context, req frameBuilder, tracer Tracer) (*fram
 
 		return resp.framer, nil
 	case <-timeoutCh:
+		c.vConn(vcTmoClose, call, 4, 0)
 		close(call.timeout)
 		c.handleTimeout()
 		return nil, ErrTimeoutNoResponse
 	case <-ctxDone:
+		c.vConn(vcTmoClose, call, 5, 0)
 		close(call.timeout)
 		return nil, ctx.Err()
 	case <-c.ctx.Done():
+		c.vConn(vcTmoClose, call, 6, 0)
 		close(call.timeout)
 		return nil, ErrConnectionClosed
 	}
